@@ -18,7 +18,7 @@ type MemDBV2 struct {
 	keysByDuty map[core.Duty][]memDBKey // Key index by duty for fast deletion.
 	deadliner  core.Deadliner
 	closed     chan struct{}
-	notify     chan struct{} // Notification channel for data availability
+	notify     chan struct{} // Closed (and replaced) by Store to wake all waiting Await calls.
 }
 
 // NewMemDBV2 creates a basic memory based AggSigDB.
@@ -27,7 +27,7 @@ func NewMemDBV2(deadliner core.Deadliner) *MemDBV2 {
 		// data, keysByDuty are okay to use without explicit initialization
 		deadliner:  deadliner,
 		closed:     make(chan struct{}),
-		notify:     make(chan struct{}, 1), // Buffered channel for non-blocking sends
+		notify:     make(chan struct{}),
 		data:       map[memDBKey]core.SignedData{},
 		keysByDuty: map[core.Duty][]memDBKey{},
 	}
@@ -68,6 +68,14 @@ func (m *MemDBV2) Store(ctx context.Context, duty core.Duty, set core.SignedData
 	default:
 	}
 
+	// Wake all waiters on return, also on an early error return: entries stored before the
+	// failing one are visible to readers. Waiters re-check their own key, so a wake-up that
+	// brings nothing for some of them is harmless.
+	defer func() {
+		close(m.notify)
+		m.notify = make(chan struct{})
+	}()
+
 	for pubKey, data := range set {
 		subcommIdx, err := core.SyncSubcommitteeIndex(duty.Type, data)
 		if err != nil {
@@ -79,40 +87,37 @@ func (m *MemDBV2) Store(ctx context.Context, duty core.Duty, set core.SignedData
 		}
 	}
 
-	// Notify waiters that new data is available
-	select {
-	case m.notify <- struct{}{}:
-	default:
-		// Channel already has a pending notification
-	}
-
 	return nil
 }
 
 func (m *MemDBV2) Await(ctx context.Context, duty core.Duty, pubKey core.PubKey, subcommIdx core.SubcommitteeIndex) (core.SignedData, error) {
 	errMustLoop := errors.New("still needs loop")
 
-	query := func() (core.SignedData, error) {
+	// query also returns the notify channel that was current while the key was looked up (under
+	// the same read lock): any Store that comes after this lookup closes exactly that channel.
+	query := func() (core.SignedData, <-chan struct{}, error) {
 		m.RLock()
 		defer m.RUnlock()
 
 		select {
 		case <-ctx.Done():
-			return nil, ctx.Err()
+			return nil, nil, ctx.Err()
 		case <-m.closed:
-			return nil, ErrStopped
+			return nil, nil, ErrStopped
 		default:
 			data, ok := m.data[memDBKey{duty: duty, pubKey: pubKey, subcommIdx: subcommIdx}]
 			if !ok {
-				return nil, errMustLoop
+				return nil, m.notify, errMustLoop
 			}
 
-			return data.Clone()
+			clone, err := data.Clone()
+
+			return clone, nil, err
 		}
 	}
 
 	for {
-		data, err := query()
+		data, notify, err := query()
 		if err == nil {
 			return data, nil
 		}
@@ -127,8 +132,8 @@ func (m *MemDBV2) Await(ctx context.Context, duty core.Duty, pubKey core.PubKey,
 			return nil, ctx.Err()
 		case <-m.closed:
 			return nil, ErrStopped
-		case <-m.notify:
-			// New data available, try again
+		case <-notify:
+			// A Store happened since the lookup, try again
 			continue
 		}
 	}
